@@ -36,6 +36,8 @@ def compare(ctx, rep, group, results, N):
 
 def run(ctx):
     import EoN
+    import genpm
+    genpm.run_stream(ctx)      # the preferential-mixing right-hand side regenerated from the source (Gen/PrefMixGen.lean)
     # --- SIR hierarchy with rho on arbitrary degree distributions
     for k in range(ctx.scale(12, 80)):
         seed = ctx.rng.randrange(10 ** 6)
